@@ -255,6 +255,63 @@ def register(ck, op, key, what, call, earlier):
     brk(ck, "oracle", f"failure seen only inside this process: {key}", what + " | call=" + json.dumps(call)[:500])
 
 
+def judge_flow(by_key, flow, known=None):
+    """Run a cross-operator flow in this process; judge every call against fresh strict inference."""
+    known = _known_keys() if known is None else known
+    out = []
+    for i, (c, sp) in enumerate(zip(flow["calls"], L.run_flow(by_key, flow))):
+        if sp is None:
+            continue
+        op = by_key[L.call_op_key(c)]
+        call = dict(c, vars=flow["vars"])
+        key, what, info = judge(op, call, sp)
+        out.append((i, op, key, what, info, call, sp))
+    return out
+
+
+def sub_flow(flow, idxs):
+    """the flow restricted to some of its calls (results of dropped calls become plain typed arguments)"""
+    keep = sorted(idxs)
+    vars_ = copy.deepcopy(flow["vars"])
+    for v in vars_:
+        ro = v.get("result_of")
+        if ro:
+            if ro[0] in keep:
+                v["result_of"] = [keep.index(ro[0]), ro[1]]
+            else:
+                del v["result_of"]
+    return {"vars": vars_, "calls": [flow["calls"][i] for i in keep], "shared": flow.get("shared"), "kind": flow.get("kind")}
+
+
+def register_flow(ck, flow, i, op, key, what, call):
+    """witness for a failure of call #i of a flow: the call alone if that fails in a fresh process,
+    otherwise the shortest prefix pair that does"""
+    uses_result = any(flow["vars"][v].get("result_of") for a in call["args"] for v in (a if isinstance(a, list) else [a]) if v is not None)
+    if not uses_result:
+        alone = {k: v for k, v in call.items()}
+        alone["vars"] = [dict(v, **({} if not v.get("result_of") else {})) for v in flow["vars"]]
+        if confirm({"op_key": op.key, "call": alone}, key, "single"):
+            ck.failure(key, what, {"op_key": op.key, "call": alone})
+            return
+    hkey = f"history:shared-var:{op.name}"
+    if any(f["key"] == hkey for f in ck.failures):
+        return
+    what2 = (f"{op.name}: call #{i + 1} of a sequence of different operators sharing a Var ({flow.get('kind')}) is answered wrongly "
+             f"only after the earlier calls: " + what)
+    deps = {flow["vars"][v]["result_of"][0] for a in call["args"] for v in (a if isinstance(a, list) else [a])
+            if v is not None and flow["vars"][v].get("result_of")}
+    for j in range(i - 1, -1, -1):
+        f2 = sub_flow(flow, deps | {j, i})
+        if confirm({"flow": f2}, hkey, "pair"):
+            ck.failure(hkey, what2, {"flow": f2})
+            return
+    f2 = sub_flow(flow, set(range(i + 1)))
+    if confirm({"flow": f2}, hkey, "history"):
+        ck.failure(hkey, what2, {"flow": f2})
+        return
+    brk(ck, "oracle", f"failure seen only inside this process: {key}", what[:600])
+
+
 def shrink_history(op, hist, key):
     """keep only (one earlier call, the failing call) if that still fails with the same key"""
     n = len(hist["calls"])
@@ -518,6 +575,48 @@ def run(ck: core.Check):
     ck.log(f"{hstats['histories']} call histories, {hstats['calls']} calls")
     ck.cov["histories"] = dict(hstats)
 
+    # 1b. cross-operator flows: one Var (constant / argument / earlier result) through different operators
+    fstats = collections.Counter()
+    mods = [m for m, _, _ in L.MODULES[:5]]
+    reqs, pending = [], []
+    for _ in range(ck.pick(700, 9000)):
+        try:
+            flow = L.gen_flow(rng, rng.choice(mods))
+            if flow is None:
+                fstats["not_generated"] += 1
+                continue
+            fstats["flows"] += 1
+            fstats["kind:" + flow["kind"]] += 1
+            for i, op, key, what, info, call, sp in judge_flow(by_key, flow, known):
+                fstats["calls"] += 1
+                fstats[info["class"]] += 1
+                ck.count(("flow", op.key, info["class"], i, flow["kind"]))
+                if key is not None:
+                    if key in known:
+                        ck.failure(key, what, {"op_key": op.key, "call": call})
+                    elif not any(f["key"] == key for f in ck.failures):
+                        register_flow(ck, flow, i, op, key, what, call)
+                try:
+                    req = L.model_request(op, call, sp)
+                except Exception as e:  # noqa: BLE001
+                    brk(ck, "correspondence", "constructor call not observable (model request)", f"{type(e).__name__}: {e}"[:300])
+                    continue
+                if req is not None:
+                    reqs.append(req)
+                    pending.append((op, call, sp))
+        except Exception as e:  # noqa: BLE001
+            stats["case_errors"] += 1
+            brk(ck, "harness", "a flow could not be run", f"{type(e).__name__}: {e}"[:300])
+        if len(reqs) >= 3000:
+            for (op_, call, sp), ans in zip(pending, ck.driver().ask_many("C05", reqs)):
+                correspond_case(ck, op_, call, sp, ans, stats)
+            reqs, pending = [], []
+    if reqs:
+        for (op_, call, sp), ans in zip(pending, ck.driver().ask_many("C05", reqs)):
+            correspond_case(ck, op_, call, sp, ans, stats)
+    ck.log(f"{fstats['flows']} cross-operator flows, {fstats['calls']} calls")
+    ck.cov["flows"] = dict(fstats)
+
     # 1. generated calls
     work = []
     for op in ops:
@@ -625,6 +724,7 @@ def run(ck: core.Check):
     ck.assumptions += [
         "onnx.shape_inference.infer_shapes is invariant under injective renaming of value names and ignores graph inputs / initializers the node does not read (hypotheses InferOK of eager_agrees; observed by the oracle, which uses its own names and no extra inputs)",
         "an attribute left at its default denotes the same node whether omitted or written with the schema default (the oracle accepts either representative: ONNX's ArgMax/ArgMin inference treats them differently for rank-0 inputs)",
+        "cross-operator flows: 2-4 calls of different operators in one process through which one Var flows (constant with a value / typed argument / result of the first call) in differently named slots; each call judged against fresh inference",
         "call histories: 2-4 calls of one operator in one process on shared Vars, differing in one facet (output count, one attribute, a constant's value, an optional input, an input shape), both orders; each call judged against fresh inference",
         "If / Loop / Scan / SequenceMap are generated with Identity bodies (over outer-scope values resp. body inputs)",
     ]
@@ -644,6 +744,15 @@ def replay(ck: core.Check, doc) -> bool:
         return bool(ck.broken_items or ck.failures)
     case = doc["case"]
     ops = {o.key: o for o in L.load_vocabulary()}
+    if "flow" in case:
+        known = _known_keys()
+        bad = []
+        for i, op, key, what, info, call, sp in judge_flow(ops, case["flow"], known):
+            print(f"call #{i + 1} {op.key}: {json.dumps(info['spox'], default=str)[:300]} -> {key}")
+            if key is not None and key not in known:
+                print(f"{key}: {what}"[:600])
+                bad.append(key)
+        return bool(bad)
     op = ops[case["op_key"]]
     if "history" in case:
         known = _known_keys()
